@@ -8,6 +8,8 @@ package props
 import (
 	"context"
 	"fmt"
+	"runtime"
+	"strconv"
 	"strings"
 	"sync/atomic"
 	"time"
@@ -348,7 +350,89 @@ func (s *c11Sched) BeforeOp(op *rshim.Op) int {
 }
 func (s *c11Sched) AfterOp(op *rshim.Op, res *rshim.Result) {}
 
+// c11TwoSenders: a send must stay cancellable when another sender takes the last free slot between
+// the moment this one looks at the channel and the moment it sends. One forced interleaving: state
+// A is held at its first channel operation (whatever it is) until state B has filled the
+// one-slot buffer; the context is cancelled when A reaches its next operation - or, if A has no
+// further hook, right after its release; A must come back with the context's error.
+func c11TwoSenders(r *harness.Run) {
+	ch := make(chan lua.LValue, 1)
+	A, B := lua.NewState(), lua.NewState()
+	ctx, cancel := context.WithCancel(context.Background())
+	defer cancel()
+	A.SetContext(ctx)
+	A.SetGlobal("ch", lua.LChannel(ch))
+	B.SetGlobal("ch", lua.LChannel(ch))
+	hold, firstSeen := make(chan struct{}), make(chan struct{})
+	var nA int32
+	var aGid int64
+	sched := &c11Sched{onBlock: func(op *rshim.Op) {
+		if curGoroutine() != atomic.LoadInt64(&aGid) {
+			return // B's operations pass
+		}
+		switch atomic.AddInt32(&nA, 1) {
+		case 1:
+			close(firstSeen)
+			<-hold // until B has filled the buffer
+		case 2:
+			cancel() // A is about to send for real
+		}
+	}}
+	rshim.Sched = sched
+	done := make(chan error, 1)
+	go func() {
+		atomic.StoreInt64(&aGid, curGoroutine())
+		done <- A.DoString(`ch:send("a")`)
+	}()
+	hung := false
+	select {
+	case <-firstSeen:
+	case <-time.After(20 * time.Second):
+		hung = true
+	}
+	var err error
+	if !hung {
+		if berr := B.DoString(`ch:send("b")`); berr != nil {
+			harness.Fatal("c11 two senders: B failed: %v", berr)
+		}
+		close(hold)
+		// if A's first operation was already the (cancellable) send itself, no second hook fires
+		go func() { time.Sleep(200 * time.Millisecond); cancel() }()
+		select {
+		case err = <-done:
+		case <-time.After(20 * time.Second):
+			hung = true
+		}
+	}
+	rshim.Sched = nil
+	r.Eval("blocking/two-senders", true, func() interface{} {
+		return map[string]interface{}{"case": "blocking-operation", "script": "two states send on a one-slot channel; the other one fills it between this one's look and its send"}
+	})
+	switch {
+	case hung:
+		r.Violation("blocking/two-senders/hang", "a send that lost the last free slot to another sender did not return after the context was cancelled (watchdog 20 s)", nil)
+	case err == nil || !strings.Contains(err.Error(), "context canceled"):
+		r.Violation("blocking/two-senders/wrong-result", fmt.Sprintf("the send ended with %v after cancellation (expected the context error)", err), nil)
+	}
+	if !hung {
+		A.Close()
+	}
+	B.Close()
+}
+
+func curGoroutine() int64 {
+	var buf [64]byte
+	n := runtime.Stack(buf[:], false)
+	f := strings.Fields(string(buf[:n]))
+	if len(f) < 2 {
+		return -1
+	}
+	id, _ := strconv.ParseInt(f[1], 10, 64)
+	return id
+}
+
 func c11Blocking(r *harness.Run) {
+	c11TwoSenders(r)
 	scripts := []struct{ name, src string }{
 		{"receive-unbuffered", `local ch = channel.make() local ok, v = ch:receive() emit("after", ok, v)`},
 		{"receive-buffered-empty", `local ch = channel.make(2) local ok, v = ch:receive() emit("after", ok, v)`},
